@@ -146,6 +146,10 @@ fn check_flavor<E: Flavor>(c: &HeaderCase) -> CaseResult {
 }
 
 fn check(c: &HeaderCase) -> CaseResult {
+    // Encoding and decoding must not depend on "now": put the (mock) wall clock somewhere that is
+    // neither 0 nor any generated timestamp, so that a decoder substituting the current time for a
+    // field value cannot go unnoticed (the mock clock of p2panda-core's test_utils starts at 0).
+    mock_instant::thread_local::MockClock::set_system_time(std::time::Duration::from_micros(1_790_000_000_123_457));
     match c.ext.kind() {
         ExtKind::Unit => check_flavor::<()>(c),
         ExtKind::Custom => check_flavor::<CustomExt>(c),
